@@ -6,6 +6,7 @@ import (
 	"net"
 
 	"ergo.services/ergo/gen"
+	"ergo.services/ergo/lib"
 )
 
 // VerifPool returns the net.Conn of every pooled link of a connection, in pool (slice) order.
@@ -31,4 +32,17 @@ func VerifRecvQueues(c gen.Connection) int {
 		return 0
 	}
 	return len(conn.recvQueues)
+}
+
+// VerifWrapRecvQueues replaces every receive queue of a connection by wrap(queue): the harness
+// interposes on the queue operations of serve() and handleRecvQueue(). Call it before any link joins.
+func VerifWrapRecvQueues(c gen.Connection, wrap func(lib.QueueMPSC) lib.QueueMPSC) bool {
+	conn, ok := c.(*connection)
+	if ok == false {
+		return false
+	}
+	for i, q := range conn.recvQueues {
+		conn.recvQueues[i] = wrap(q)
+	}
+	return true
 }
